@@ -106,8 +106,29 @@ def check_tags(ctx):
         tags[name] = m.group(1).lower()
   ctx.floor("TAB-tags", "opening tag literals in srt/style.py", len(tags), 4)
   h = ix.func("ttconv.srt.reader:_TextParser.handle_starttag")
+  # by interpretation: a tag is understood when handling it styles the span it opens (or, for <font>, reaches the colour parser)
+  from ..consteval import NotConst as _NC, Raised as _R, Sym
+  from ..rules.minieval import MiniEval, Node
   accepted = set()
-  for n in own_nodes(h.node):
+  interpreted = True
+  for tag in sorted(set(tags.values()) | {"blink"}):
+    para = Node("P", "paragraph", (), doc="doc")
+    selfn = Node("Parser", "parser", (), parent=para, line_num=1)
+    me = MiniEval(ix, opaque_calls={"parse_color": Sym("colour")})
+    try:
+      me.call(h, [selfn, tag.upper() if tag == "b" else tag, [("color", "#ff0000")] if tag == "font" else []])
+    except _R:
+      continue
+    except _NC:
+      interpreted = False
+      break
+    if any(isinstance(ev_[0], Node) and ev_[1] == "set_style" for ev_ in me.trace) or any(ev_[0] == "opaque" and "parse_color" in ev_[1] for ev_ in me.trace):
+      accepted.add(tag)
+  if interpreted and "blink" in accepted:
+    interpreted = False       # every tag seems to have an effect: the probe does not discriminate
+  if not interpreted:
+    accepted = set()
+  for n in (own_nodes(h.node) if not interpreted else ()):
     if isinstance(n, ast.Compare) and "tag" in unparse(n.left):
       for c in n.comparators:
         if isinstance(c, ast.Attribute) and isinstance(c.value, ast.Name) and c.value.id in ("self", "cls") and h.cls is not None:
